@@ -190,6 +190,10 @@ class InPredicate:
                 if not result:
                     return None
         elif positive:
+            if isinstance(self.pattern_vals, (str, bytes, bytearray)):
+                # Containment in a string is a substring test, so values other
+                # than its individual characters satisfy it too.
+                return value
             acceptable_values = [
                 KnownValue(pattern_val)
                 for pattern_val in self.pattern_vals
